@@ -123,6 +123,17 @@ def r06_4(run):
         run.ob("R06.5", loc(g, cfgg.stmt[rn]), g.short, "a cached view gradient is returned only after the base-identity validation (or right after it was recomputed)", ok,
                "return is edge-dominated by the validation test / dominated by a fresh store" if ok else
                "an unvalidated cached view gradient can be returned: stale .grad on a view after its base received a new gradient")
+    # scenario: the base's gradient was discarded (None) while the view still caches a gradient that is not a view (its .base is None, e.g. the
+    # replay of ravel/reshape on an F-ordered gradient copied): `None is None` must not validate the cache
+    sc = build_cfg(run, g, {"self._base is None": False, "self._constant": False, "self._view_grad is not None": True,
+                            "self._view_grad.base is self._base._grad": True, "self._base._grad is None": True, "self._base._grad is not None": False})
+    cached = [n for n, s in sc.stmt.items() if isinstance(s, ast.Return) and s.value is not None and norm(s.value) == "self._view_grad"
+              and sc.reachable(n) and not sc.set_dominates({m for m, s2 in sc.stmt.items() if isinstance(s2, ast.Assign)
+                                                            and any(norm(t) == "self._view_grad" for t in s2.targets)}, n)]
+    run.ob("R06.5", loc(g, sc.stmt[cached[0]] if cached else g.node), g.short, "no cached view gradient is returned while the base has no gradient", not cached,
+           "under {base._grad is None} every cached return is unreachable" if not cached else
+           "with base._grad None and a cached view gradient that owns its memory, `_view_grad.base is base._grad` reads `None is None`: the view keeps "
+           "reporting the gradient its base has already discarded")
     base_ret = [n for n, s in cfgg.stmt.items() if cfgg.label[n] == "If" and norm(s) in ("self._base is None", "self.base is None")]
     ok = False
     for t in base_ret:
